@@ -136,7 +136,8 @@ fn variant_string_from_slice() {
 //  Some(Err(i))   => target does not occur in the range and i is its insertion point
 //                    (every key before i is smaller, every key from i on is larger);
 // never panics, never probes outside the range, terminates within ceil(log2(len))+1 probes.
-// @unit name=variant_binary_search props=C08 kind=bounded bound=table<=7_keys fns=try_binary_search_range_by tier=quick timeout=480 mem=3
+// NOT CONFIRMED: all checks passed in 7 s; one cover (empty range) was unreachable because of an over-strong harness assumption, corrected, not re-run
+// @unit name=variant_binary_search props=C08 kind=bounded bound=table<=7_keys fns=try_binary_search_range_by tier=thorough timeout=900 mem=3
 #[kani::proof]
 #[kani::unwind(9)]
 fn variant_binary_search() {
@@ -156,14 +157,13 @@ fn variant_binary_search() {
         assert!(k >= lo && k < hi);
         if k == bad { None } else { Some(keys[k].cmp(&target)) }
     });
-    let w: usize = kani::any(); // witness index
-    kani::assume(w >= lo && w < hi);
+    let w: usize = kani::any(); // witness index (any index of the range, if the range is not empty)
     match r {
         None => assert!(bad >= lo && bad < hi),
         Some(Ok(i)) => assert!(i >= lo && i < hi && keys[i] == target),
         Some(Err(i)) => {
             assert!(i >= lo && i <= hi);
-            if bad < lo || bad >= hi {
+            if (bad < lo || bad >= hi) && w >= lo && w < hi {
                 assert!(keys[w] != target);
                 assert!((w < i) == (keys[w] < target));
             }
